@@ -1,5 +1,146 @@
--- placeholder, theorems follow
+/-
+  C13 — the data bit stream is terminated and padded as ISO/IEC 18004 7.4.9 / 7.4.10 require.
+  Property theorems only; helper lemmas live in Proofs/Stream.lean.
+  `Model.finishStream` models write_terminator + write_padding_bits + write_pad_codewords,
+  `Spec.isoTail` is the tail the standard prescribes, `Spec.d1Tail` the recorded deviation D1.
+-/
 import Spec.Decode
+import Model.Encoder
+import Proofs.Stream
+
 namespace Props.C13
-theorem placeholder : True := trivial
+
+set_option linter.unusedVariables false
+
+/-- `cap` is the Table 7 capacity of version `v` at some level -/
+def CapOf (v : Int) (cap : Nat) : Prop := ∃ e : Option Nat, Model.capacity v e = some cap
+
+/-- FULL STATEMENT (false on the pinned tree because of known finding D1, see `d1_witness`):
+    whatever the segments are, the stream is segments ++ ISO tail. -/
+def StreamLayout : Prop :=
+  ∀ (v : Int) (cap : Nat) (buff s : List Nat), -3 ≤ v → v ≤ 40 → CapOf v cap → buff.length ≤ cap →
+    Model.finishStream buff v cap = .ok s → s = buff ++ Spec.isoTail v cap buff.length
+
+/-- STATEMENT AS ORIGINALLY GIVEN for the proved part — FALSE: `d1Trigger` is also false when the
+    terminated stream is codeword-aligned and fills the capacity exactly (`l1 = cap`, not M1/M3); the
+    model (= pinned code) then still appends 8 zero bits, so `s` is 8 bits longer than `cap`.
+    Counterexample: v = 1, cap = 152 (1-L), buff = 152 bits (e.g. 17 bytes in byte mode + terminator):
+    `finishStream` gives 160 bits, `isoTail 1 152 152 = []`; see `stream_layout_partial_counterexample`. -/
+def StreamLayoutPartial : Prop :=
+  ∀ (v : Int) (cap : Nat) (buff s : List Nat), -3 ≤ v → v ≤ 40 → CapOf v cap → buff.length ≤ cap →
+    Spec.d1Trigger v cap buff.length = false →
+    Model.finishStream buff v cap = .ok s → s = buff ++ Spec.isoTail v cap buff.length
+
+theorem stream_layout_partial_counterexample : ¬ StreamLayoutPartial := by
+  intro h
+  have h' := h 1 152 (List.replicate 152 1) _ (by decide) (by decide) ⟨some 1, by decide +kernel⟩
+    (by simp) (by decide +kernel)
+    (Proofs.Stream.finish_qr (List.replicate 152 1) 1 152 (by decide) (by decide) rfl)
+  have h'' := congrArg List.length h'
+  rw [List.length_append, List.length_append, List.length_append, List.length_replicate,
+    List.length_replicate, Proofs.Stream.padCodewords_length] at h''
+  have h3 := Proofs.Stream.isoTail_length 1 152 152 (some 1) (by decide +kernel) (Nat.le_refl _)
+  omega
+
+/-- proved part (strongest true variant, exact equality): unless the symbol is not M1/M3 AND the
+    terminated stream is codeword-aligned, the stream is exactly segments ++ ISO tail.
+    (Given `hc`/`hl` the hypothesis `hal` is equivalent to: `d1Trigger = false` and not
+    "not M1/M3 with terminated length = cap".) -/
+theorem stream_layout_partial_partial (v : Int) (cap : Nat) (buff s : List Nat) (h1 : -3 ≤ v) (h2 : v ≤ 40)
+    (hc : CapOf v cap) (hl : buff.length ≤ cap)
+    (hal : Spec.fourBitFinal v = true ∨
+      (buff.length + min (cap - buff.length) (Spec.terminatorLen v)) % 8 ≠ 0)
+    (h : Model.finishStream buff v cap = .ok s) :
+    s = buff ++ Spec.isoTail v cap buff.length := by
+  obtain ⟨e, hc⟩ := hc
+  rw [Proofs.Stream.finish_iso buff v cap e hc hl hal] at h
+  exact (Except.ok.inj h).symm
+
+/-- the hypothesis of `stream_layout_partial_partial` is also necessary: exact characterisation of
+    when the pinned code follows ISO 7.4.9/7.4.10 bit for bit -/
+theorem stream_layout_iff (v : Int) (cap : Nat) (buff s : List Nat) (h1 : -3 ≤ v) (h2 : v ≤ 40)
+    (hc : CapOf v cap) (hl : buff.length ≤ cap) (h : Model.finishStream buff v cap = .ok s) :
+    s = buff ++ Spec.isoTail v cap buff.length ↔
+      (Spec.fourBitFinal v = true ∨
+        (buff.length + min (cap - buff.length) (Spec.terminatorLen v)) % 8 ≠ 0) := by
+  constructor
+  · intro hs
+    obtain ⟨e, hc⟩ := hc
+    cases hf : Spec.fourBitFinal v with
+    | true => exact Or.inl rfl
+    | false =>
+      refine Or.inr (fun hal => ?_)
+      exact Proofs.Stream.finish_ne_iso buff v cap e hc hl hf hal (hs ▸ h)
+  · intro hal
+    exact stream_layout_partial_partial v cap buff s h1 h2 hc hl hal h
+
+/-- proved part with the original hypothesis `hnot`: outside the D1 trigger the first `cap` bits of
+    the stream (all that make_blocks uses) are segments ++ ISO tail -/
+theorem stream_layout_partial_take (v : Int) (cap : Nat) (buff s : List Nat) (h1 : -3 ≤ v) (h2 : v ≤ 40)
+    (hc : CapOf v cap) (hl : buff.length ≤ cap) (hnot : Spec.d1Trigger v cap buff.length = false)
+    (h : Model.finishStream buff v cap = .ok s) :
+    s.take cap = buff ++ Spec.isoTail v cap buff.length ∧ cap ≤ s.length := by
+  obtain ⟨e, hc⟩ := hc
+  have := Proofs.Stream.finish_take buff s v cap e hc hl h
+  rwa [Proofs.Stream.d1Tail_eq_isoTail v cap _ hnot] at this
+
+/-- on the D1 trigger the model (= pinned code) produces exactly the predicted deviation: one
+    00000000 codeword before the pad codewords (first `cap` bits; later bits are dropped by make_blocks) -/
+theorem stream_layout_d1 (v : Int) (cap : Nat) (buff s : List Nat) (h1 : -3 ≤ v) (h2 : v ≤ 40)
+    (hc : CapOf v cap) (hl : buff.length ≤ cap) (h : Model.finishStream buff v cap = .ok s) :
+    s.take cap = buff ++ Spec.d1Tail v cap buff.length ∧ cap ≤ s.length := by
+  obtain ⟨e, hc⟩ := hc
+  exact Proofs.Stream.finish_take buff s v cap e hc hl h
+
+/-- `finishStream` never fails for a valid version -/
+theorem finish_stream_total (v : Int) (cap : Nat) (buff : List Nat) (h1 : -3 ≤ v) (h2 : v ≤ 40) :
+    ∃ s, Model.finishStream buff v cap = .ok s :=
+  Proofs.Stream.finish_total v cap buff h1 h2
+
+/-- the ISO tail fills the capacity exactly -/
+theorem iso_tail_fills_capacity (v : Int) (cap len : Nat) (h1 : -3 ≤ v) (h2 : v ≤ 40) (hc : CapOf v cap)
+    (hl : len ≤ cap) : len + (Spec.isoTail v cap len).length = cap := by
+  obtain ⟨e, hc⟩ := hc
+  exact Proofs.Stream.isoTail_length v cap len e hc hl
+
+/-- the remainder bits table translated from make_final_message is the ISO one -/
+theorem remainder_bits_iso (v : Int) (h1 : -3 ≤ v) (h2 : v ≤ 40) :
+    Gen.remainder_bits v = (Spec.remainderBits v : Int) :=
+  Proofs.Stream.remainder_bits v h1 h2
+
+/-- the terminator lengths of `consts.TERMINATOR_LENGTH` are 4 (QR) and 3/5/7/9 (M1..M4) -/
+theorem terminator_length_iso (v : Int) (h1 : -3 ≤ v) (h2 : v ≤ 40) :
+    Model.terminatorLength v = some (Spec.terminatorLen v) :=
+  Proofs.Stream.terminator_length v h1 h2
+
+/-- general form of `d1_witness` (below): whenever the D1 trigger holds the stream deviates from ISO -/
+theorem d1_deviates (v : Int) (cap : Nat) (buff : List Nat) (hc : CapOf v cap) (hl : buff.length ≤ cap)
+    (ht : Spec.d1Trigger v cap buff.length = true) :
+    Model.finishStream buff v cap ≠ .ok (buff ++ Spec.isoTail v cap buff.length) := by
+  obtain ⟨e, hc⟩ := hc
+  unfold Spec.d1Trigger at ht
+  simp only [Bool.and_eq_true, Bool.not_eq_true', beq_iff_eq, decide_eq_true_eq] at ht
+  exact Proofs.Stream.finish_ne_iso buff v cap e hc hl ht.1.1 ht.1.2
+
+/-- kernel-checked witness that the full statement fails on the pinned tree (D1):
+    12 bits of segments in M2-L (capacity 40): 12 + 5 terminator bits = 17 … not aligned; take 11 bits:
+    11 + 5 = 16 aligned, ISO continues with 11101100, the code with 00000000 -/
+theorem d1_witness :
+    Spec.d1Trigger (-2) 40 11 = true ∧
+    Model.finishStream (List.replicate 11 1) (-2) 40 ≠ .ok (List.replicate 11 1 ++ Spec.isoTail (-2) 40 11) := by
+  exact ⟨by decide +kernel,
+    d1_deviates (-2) 40 _ ⟨some 1, by decide +kernel⟩ (by simp) (by decide +kernel)⟩
+
 end Props.C13
+
+#print axioms Props.C13.stream_layout_partial_counterexample
+#print axioms Props.C13.stream_layout_partial_partial
+#print axioms Props.C13.stream_layout_iff
+#print axioms Props.C13.stream_layout_partial_take
+#print axioms Props.C13.stream_layout_d1
+#print axioms Props.C13.finish_stream_total
+#print axioms Props.C13.iso_tail_fills_capacity
+#print axioms Props.C13.remainder_bits_iso
+#print axioms Props.C13.terminator_length_iso
+#print axioms Props.C13.d1_witness
+#print axioms Props.C13.d1_deviates
